@@ -77,3 +77,28 @@ Example C10_example_usable_on_the_upper_bound :
   IDevice_a_accepts 2 (PS (1 # 4)) = true /\ IDevice_b_accepts 2 (PV [1; 3]%Q) = true /\
   leaf_obs d [2; 1]%Q [0; 0]%Q = {| o_cost := Some Sc; o_deriv := Some (Vec 2); o_hess := Some (Mat 2 2); o_cons := [] |}.
 Proof. exact example_usable. Qed.
+
+(* ---------------------------------------------------------------- every device TREE (Proofs/C10Tree.v, any carrier, induction on the tree)
+   Given units that honour the contract shapes (one row; marginal cost of n entries; an (n,n) Hessian; n bounds pairs - what the three
+   theorems at the top of this file establish for the atomic devices), a tree of any depth and fan-out whose sets have children of one
+   horizon length n (DeviceSet.__init__ rejects anything else; wf_len) returns, for a flow matrix and a price matrix of the device shape
+   (rows, n): a marginal cost of the device shape, an (n,n) Hessian, and rows*n bounds pairs.  The Jacobians of the exported constraints
+   have rows*n entries by C06_tree.  well_shaped R n S: R rows of n entries; square n M: n rows of n entries. *)
+From DK.Model Require Import Tree.
+From DK.Proofs Require Import C02Proofs C10Tree.
+Theorem C10_tree_marginal_cost_has_the_device_shape : forall (A : Type) (NA : Num A) (L : Type) (ops : leafops A L) d,
+  leaf_contract ops -> wf_len ops d -> forall n S P, dlen ops d = n ->
+  well_shaped (rows ops d) n S -> well_shaped (rows ops d) n P -> well_shaped (rows ops d) n (gderiv ops d S P).
+Proof. intros A NA L ops d HC. exact (tree_deriv_shape ops HC d). Qed.
+Theorem C10_tree_hessian_is_n_by_n : forall (A : Type) (NA : Num A) (L : Type) (ops : leafops A L) d,
+  leaf_contract ops -> wf_len ops d -> forall n S, dlen ops d = n -> well_shaped (rows ops d) n S -> square n (ghess ops d S).
+Proof. intros A NA L ops d HC. exact (tree_hess_shape ops HC d). Qed.
+Theorem C10_tree_bounds_one_pair_per_flow_variable : forall (A : Type) (NA : Num A) (L : Type) (ops : leafops A L) d,
+  leaf_contract ops -> wf_len ops d -> forall n, dlen ops d = n -> length (gbounds ops d) = (rows ops d * n)%nat.
+Proof. intros A NA L ops d HC. exact (tree_bounds_length ops HC d). Qed.
+Theorem C10_leaf_contract_means : forall (A : Type) (NA : Num A) (L : Type) (ops : leafops A L), leaf_contract ops <->
+  (forall l, l_rows L ops l = 1%nat) /\
+  (forall l s p, length s = l_n L ops l -> length p = l_n L ops l -> length (l_deriv L ops l s p) = l_n L ops l) /\
+  (forall l s, length s = l_n L ops l -> square (l_n L ops l) (l_hess L ops l s)) /\
+  (forall l, length (l_bounds L ops l) = l_n L ops l).
+Proof. intros; reflexivity. Qed.
